@@ -9,8 +9,9 @@ Theorems over `Model/Match.lean` (one row of `esr/fitting/match.py:main`, the li
 fires on anything but "some entry of the chain is not a mapping" makes this file fail to build.
 
 What is *not* proved here (inputs of the model, checked against an independent chain-rule oracle on every run): that sympy's
-`subs`/`jacobian`/`lambdify` satisfy `Sem.Lawful` and return the Jacobian, that `np.linalg.inv` inverts, and that the Hessian of
-`L∘p⁻¹` at a stationary point is `J⁻ᵀ H J⁻¹` (textbook; `quadratic_form_transforms` is the algebraic core of it).
+`subs`/`jacobian`/`lambdify` satisfy `Sem.Lawful` and return the Jacobian, and that `np.linalg.inv` inverts.  That the Hessian of
+`L∘p⁻¹` at a stationary point IS `J⁻ᵀ H J⁻¹` is proved in `Props/C05b.lean` (`fisher_matrix_of_variant`, `fisher_diag_monomial`);
+`quadratic_form_transforms` and `monomial_fisher_diag` below are the algebraic part it uses.
 -/
 namespace ESR.C05
 open ESR.Match ESR.Gen.Match
